@@ -157,14 +157,14 @@ Proof.
   { inversion H; subst; split; [exact Hf|exact Hst]. }
   apply IH in H. destruct H as [H Hst2]. split.
   - eapply Run_seq; [exact Hf|]. exact H.
-  - rewrite Hst2. cbn [st set_pbyte set_buf]. exact Hst.
+  - rewrite Hst2. cbn [st set_pline set_pbyte set_buf]. exact Hst.
 Qed.
 
 Lemma fa_init_run ex fuel ffuel r r' res : fa_init fuel ffuel r = (r', res) ->
   Run ex (fa_core r) (fa_core r') (ires_class res) /\ (st r' = st r \/ st r' = FFinished).
 Proof.
   unfold fa_init. intros H.
-  destruct (fa_first_byte fuel ffuel r 0) as [r1 fb] eqn:E1.
+  destruct (fa_first_byte fuel ffuel r (pline r)) as [r1 fb] eqn:E1.
   destruct (fa_first_byte_run ex _ _ _ _ _ _ E1) as [Hf Hst].
   destruct fb as [ln pos b| |k|]; try (inversion H; subst; split; [exact Hf|auto]).
   destruct (b =? GT); inversion H; subst; (split; [exact Hf|auto]).
@@ -297,7 +297,7 @@ Lemma fa_seek_run ex ffuel r line byte_ r' o : fa_seek ffuel r line byte_ = (r',
 Proof.
   unfold fa_seek. intros H.
   destruct ((0 <=? Z.of_nat (start r) + (Z.of_nat byte_ - Z.of_nat (pbyte r)))%Z &&
-            (Z.of_nat (start r) + (Z.of_nat byte_ - Z.of_nat (pbyte r)) <? Z.of_nat (length (buf r)))%Z).
+            (Z.of_nat (start r) + (Z.of_nat byte_ - Z.of_nat (pbyte r)) <? Z.of_nat (length (buf r)))%Z && negb (fa_state_eqb (st r) FNew)).
   { inversion H; subst. apply Run_eq. reflexivity. }
   destruct (src_seek (src r) byte_) as [s' res] eqn:Es.
   destruct res as [k|].
